@@ -45,6 +45,8 @@ def n_interleavings(shape):
 
 
 def cost(sp):
+    if sp.get("wide"):
+        return 50
     c = n_interleavings(sp["shape"])
     for m in sp["machines"]:
         c *= len(m)
@@ -72,3 +74,21 @@ def attach_library_observers(disp, inst, graph="atj"):
     obs += [MakespanReward(disp), IdleTimeReward(disp)]
     obs.append(ResidualGraphUpdater(disp, builders[graph](inst)))
     return obs
+
+
+def wide_subspaces(pairs=((1, 8), (0, 9), (4, 5)), histories=("jobmajor", "reverse", "roundrobin"), n_jobs=10, n_machines=4, **extra):
+    """Wide instances beyond the small-shape bounds at low cost: `n_jobs` jobs (job ids >= 8 occur), jobs i and j of each
+    pair have 3 operations, the others 1; operation p of job x runs on machine (x + p) % n_machines; TWO shared symbolic
+    durations (long jobs' operations / short jobs' operations), so ties are everywhere and the paths are the orderings of
+    a few linear terms; instead of every interleaving three fixed histories are followed (drivers.choose_dispatch)."""
+    out = []
+    for i, j in pairs:
+        shape = [3 if x in (i, j) else 1 for x in range(n_jobs)]
+        machines, share = [], []
+        for x, n in enumerate(shape):
+            for p_ in range(n):
+                machines.append([(x + p_) % n_machines])
+                share.append(0 if n == 3 else 1)
+        for h in histories:
+            out.append(dict(shape=shape, machines=machines, share=share, history=h, wide=True, **extra))
+    return out
